@@ -30,6 +30,8 @@ func runC10(c *Ctx) {
 	postCloseOps = true
 	runHandshaker(c)
 	runAcceptCloseRace(c)
+	runDialFailsWhileAnotherDialerRegisters(c)
+	runWsHandlerModeClose(c)
 	defer func() { postCloseOps = false }()
 	n := 12
 	if c.Thorough() {
